@@ -87,7 +87,7 @@ def explore(res, rng, n, exhaustive=None):
             dec.append((h, rng.choice([-1, -1, -2, -3])))
     cyc.config_stream(res, ['rainflow'], dec, digits_choices=(8, 8, 8, 2))
     quiet_matrix(res, rng, max(20, n // 50))
-    cyc.micro_stream(res, ['rainflow'], rng, max(30, n // 25))
+    cyc.micro_stream(res, ['rainflow'], rng, max(30, n // 25), pred)
     res.samples += [{'history': h, 'scale_2^-s': s} for h, s in cases[len(corpus()):len(corpus()) + 3]]
 
 
